@@ -12,6 +12,13 @@ import (
 
 func init() { vh.Register("C05", runC05) }
 
+// c05Extra: additional case families of this property (other files of the c05 group append
+// to it in their init); each gets the same Ctx and reports into the same result.
+var c05Extra []vh.PropFunc
+
+// c05ReplayExtra: replay dispatch for the extra families, by the "kind" field of the case.
+var c05ReplayExtra = map[string]func(ctx *vh.Ctx, raw json.RawMessage) error{}
+
 // c05Gen draws one case: a random graph (either trigger mode, cycles in pregel, branches, fan-in,
 // nested graphs) decorated with interrupt-before/after points at every nesting level,
 // rerun-requesting nodes and state with pre/post handlers.
@@ -57,6 +64,14 @@ func runC05(ctx *vh.Ctx) error {
 	other := gcase5.ProbeInitialChecked()
 	ctx.Res.Note(fmt.Sprintf("CfgInitialChecked=%v (probed on the implementation)", other))
 	if ctx.Replay != nil {
+		var probe struct {
+			Kind string `json:"kind"`
+		}
+		if json.Unmarshal(ctx.Replay, &probe) == nil && probe.Kind != "" {
+			if f, ok := c05ReplayExtra[probe.Kind]; ok {
+				return f(ctx, ctx.Replay)
+			}
+		}
 		var c gcase5.Case
 		if err := json.Unmarshal(ctx.Replay, &c); err != nil {
 			return err
@@ -75,6 +90,11 @@ func runC05(ctx *vh.Ctx) error {
 		c := c05Gen(ctx, i)
 		c.CfgInitialChecked = &other
 		if err := gcase5.Evaluate(ctx, "C05", c, true); err != nil {
+			return err
+		}
+	}
+	for _, f := range c05Extra {
+		if err := f(ctx); err != nil {
 			return err
 		}
 	}
